@@ -143,8 +143,10 @@ type c11Case struct {
 	out, err  []c11Write
 	// steps: b = Emit(next out, next err) in one call; o / e = Emit on one stream;
 	// p = the next out and the next err write issued concurrently from two goroutines;
-	// d = a Double call.  "I" = two goroutines, one per stream, each issuing its writes in order.
+	// d = a Double call; w = the plugin is idle for `idle` ms (the connection stays up, nothing is
+	// written).  "I" = two goroutines, one per stream, each issuing its writes in order.
 	steps string
+	idle  int // ms, the length of each 'w' step
 	bg    bool   // a background goroutine keeps calling Double during the script
 	cseed uint64 // seed of the model's (unobservable) read cuts and select order
 }
@@ -157,13 +159,17 @@ func (c *c11Case) line() string {
 	if c.hasBerr {
 		be = c.berr.spec()
 	}
-	return fmt.Sprintf("C11 proto=%s mux=%s auto=%s bout=%s berr=%s out=%s err=%s steps=%s bg=%s cseed=%d",
-		c.proto, b01(c.mux), b01(c.auto), bo, be, c11Specs(c.out), c11Specs(c.err), c.steps, b01(c.bg), c.cseed)
+	return fmt.Sprintf("C11 proto=%s mux=%s auto=%s bout=%s berr=%s out=%s err=%s steps=%s bg=%s cseed=%d idle=%d",
+		c.proto, b01(c.mux), b01(c.auto), bo, be, c11Specs(c.out), c11Specs(c.err), c.steps, b01(c.bg), c.cseed, c.idle)
 }
 
 func c11FromLine(m map[string]string) (*c11Case, error) {
 	c := &c11Case{proto: m["proto"], mux: m["mux"] == "1", auto: m["auto"] == "1", steps: m["steps"], bg: m["bg"] == "1"}
 	c.cseed, _ = strconv.ParseUint(m["cseed"], 10, 64)
+	c.idle, _ = strconv.Atoi(m["idle"])
+	if c.idle < 0 || c.idle > 120000 {
+		return nil, fmt.Errorf("bad idle")
+	}
 	var ok bool
 	if m["bout"] != "-" && m["bout"] != "" {
 		if c.bout, ok = c11ParseWrite(m["bout"]); !ok {
@@ -318,6 +324,27 @@ func c11Ladder(i int) *c11Case {
 	}
 	c.out = append(c.out, c11Write{3, 7, 3})
 	c.steps += "o"
+	return c
+}
+
+// c11Late: output after an idle period.  The plugin writes on both streams right
+// after the host attached, then nothing at all for idleMs (the connection
+// stays up: no RPC, no output), then it writes again, on both streams, in
+// several calls.  Everything is small, so a plugin whose stdio stream is gone
+// still completes its writes (they stay in the pipe) and the case ends with
+// "short" instead of hanging.  The stream that carries the output must live as
+// long as the connection, not for some fixed time after the attach.
+func c11Late(i int, idleMs int) *c11Case {
+	cf := c11Configs[i%len(c11Configs)]
+	c := &c11Case{proto: cf.proto, mux: cf.mux, auto: cf.auto, cseed: uint64(900 + i), idle: idleMs,
+		hasBout: i%2 == 0, bout: c11Write{3, uint64(50 + i), 100}}
+	early := []int{1025, 1, 300}
+	late := []int{1, 4097, 1024, 2}
+	c.steps = "bod" + "w" + "dbpe"
+	c.out = []c11Write{{0, uint64(3000 + i), early[0]}, {4, uint64(3001 + i), early[1]},
+		{0, uint64(3002 + i), late[0]}, {2, uint64(3003 + i), late[1]}}
+	c.err = []c11Write{{1, uint64(3100 + i), early[2]},
+		{0, uint64(3101 + i), late[2]}, {3, uint64(3102 + i), late[3]}, {0, uint64(3103 + i), 700}}
 	return c
 }
 
@@ -597,6 +624,8 @@ func runC11(c *c11Case, st *c11Stats) (impl, pred, detail string) {
 					ei++
 				case 'd':
 					serr = double(n)
+				case 'w':
+					time.Sleep(time.Duration(c.idle) * time.Millisecond)
 				}
 				if serr != nil {
 					break
@@ -674,6 +703,19 @@ func hostC11(o *out, replay string) {
 	}
 	r := newRng(seedFromEnv())
 	var cases []*c11Case
+	// output after an idle period: these sleep, so they go first and run concurrently with the rest
+	// (quick: 6.5 s idle on gRPC plain / mux / mTLS / mux+mTLS and on net/rpc; thorough: also 31 s and 61 s)
+	nLate := 0
+	for _, i := range []int{1, 2, 4, 5, 0} {
+		cases = append(cases, c11Late(i, 6500))
+		nLate++
+	}
+	if tier() == "thorough" {
+		for _, i := range []int{1, 2, 4, 0} {
+			cases = append(cases, c11Late(i, 31000), c11Late(i, 61000))
+			nLate += 2
+		}
+	}
 	for i := range c11Configs {
 		cases = append(cases, c11Ladder(i))
 	}
@@ -732,7 +774,7 @@ func hostC11(o *out, replay string) {
 			bg++
 		}
 	}
-	o.note("C11 scripts=%d (ladder=%d random=%d) per configuration: %s", len(cases), len(c11Configs), nRandom, c11Map(cfgCount))
+	o.note("C11 scripts=%d (late-output-after-idle=%d ladder=%d random=%d) per configuration: %s", len(cases), nLate, len(c11Configs), nRandom, c11Map(cfgCount))
 	o.note("C11 writes=%d by size: %s; by payload kind (0 rng,1 NUL,2 invalid-utf8,3 counter,4 newline/pipe): %s", writes, c11IntMap(sizeCount), c11IntMap(kindCount))
 	o.note("C11 steps: %s (b=Emit both, o/e=one stream, p=two concurrent Emits on different streams, d=Double); independent-goroutine scripts=%d; background-Double scripts=%d; Double calls made=%d",
 		c11Map(stepCount), indep, bg, atomic.LoadInt64(&st.doubles))
